@@ -18,11 +18,13 @@ TECHNIQUE = 'static analysis: typestate-by-ownership argument; signature, who-ma
 
 HANDLES_OK = ('std::rc::Rc', 'std::sync::Arc', 'rc::MutRc', 'rc::MutArc')
 # clone sites of an Observer-bounded parameter, with the obligation that keeps them sound
+# (keyed by the type whose methods clone it: the justification is about how that type's parameter is instantiated,
+# not about which of its methods or private helpers contains the clone)
 P2_TABLE = {
-    '<ops::take_until::TakeUntilNotifierObserver as Observer>::next': ('adt', 'ops::take_until::TakeUntilNotifierObserver', 2),
-    '<ops::group_by::GroupByObserver as Observer>::next': ('groupby', None, None),
+    'ops::take_until::TakeUntilNotifierObserver': ('adt', 'ops::take_until::TakeUntilNotifierObserver', 2),
+    'ops::group_by::GroupByObserver': ('groupby', None, None),
 }
-CONTROLS = ['P2|<verif_controls::CompleteInNext as Observer>::next', 'P3|<rc::MutRc<verif_controls::PeekShared<O>> as Observer>::error',
+CONTROLS = ['P2|<verif_controls::CompleteInNext as Observer>::next', 'P2|<verif_controls::HelperCloner as Observer>::next', 'P3|<rc::MutRc<verif_controls::PeekShared<O>> as Observer>::error',
             'P4|unsafe block in verif_controls']
 
 
@@ -117,6 +119,41 @@ def p2(cx):
     n_calls = 0
     sites = {}
     handle_adts(F)
+    # generic parameters (by name) that a local function clones in exposed position, directly or through local callees:
+    # a helper that clones its parameter T clones an observer wherever T is instantiated with one
+    cloned = {}
+    for fn in F.fns.values():
+        own = set()
+        for b in fn['blocks']:
+            t = b['t']
+            if t['k'] == 'call' and t['f']['o'] == 'const' and 'fn' in t['f']:
+                c = t['f']['fn']
+                if c.get('tr') == 'std::clone::Clone' and c.get('n') == 'clone' and c.get('a'):
+                    acc = set()
+                    _exposed_params(F, c['a'][0], acc)
+                    own |= {F.ty(x)['n'] for x in acc}
+        cloned[fn['key']] = own
+    changed = True
+    while changed:
+        changed = False
+        for fn in F.fns.values():
+            for b in fn['blocks']:
+                t = b['t']
+                if t['k'] != 'call' or t['f']['o'] != 'const' or 'fn' not in t['f']:
+                    continue
+                r = t['f']['fn'].get('res')
+                if not r or not r.get('local') or r.get('d') not in F.fns or not r.get('a'):
+                    continue
+                g = F.fns[r['d']]
+                for q in cloned.get(g['key'], ()):
+                    gens = g.get('generics') or []
+                    if q in gens and gens.index(q) < len(r['a']):
+                        acc = set()
+                        _exposed_params(F, r['a'][gens.index(q)], acc)
+                        names = {F.ty(x)['n'] for x in acc}
+                        if not names <= cloned[fn['key']]:
+                            cloned[fn['key']] |= names
+                            changed = True
     for fn in sorted(F.fns.values(), key=lambda f: f['key']):
         root = F.fns.get(fn.get('root')) if fn.get('root') else fn
         if root is None:
@@ -132,6 +169,19 @@ def p2(cx):
             if t['k'] != 'call' or t['f']['o'] != 'const' or 'fn' not in t['f']:
                 continue
             c = t['f']['fn']
+            r = c.get('res')
+            if r and r.get('local') and r.get('d') in F.fns and r.get('a') and cloned.get(r['d']):
+                g = F.fns[r['d']]
+                gens = g.get('generics') or []
+                for q in cloned[r['d']]:
+                    if q in gens and gens.index(q) < len(r['a']):
+                        acc = set()
+                        _exposed_params(F, r['a'][gens.index(q)], acc)
+                        hit = acc & obs
+                        if hit:
+                            owner = roles.impl_tag(cx, im) if im is not None else None
+                            key = owner if owner in P2_TABLE else roles.stable_label(cx, root)
+                            sites.setdefault(key, []).append((fn, t, [F.tystr(x) for x in hit]))
             if c.get('tr') != 'std::clone::Clone' or c.get('n') != 'clone' or not c.get('a'):
                 continue
             n_calls += 1
@@ -139,7 +189,9 @@ def p2(cx):
             _exposed_params(F, c['a'][0], acc)
             hit = acc & obs
             if hit:
-                sites.setdefault(roles.stable_label(cx, root), []).append((fn, t, [F.tystr(x) for x in hit]))
+                owner = roles.impl_tag(cx, im) if im is not None else None
+                key = owner if owner in P2_TABLE else roles.stable_label(cx, root)
+                sites.setdefault(key, []).append((fn, t, [F.tystr(x) for x in hit]))
     for label, ss in sorted(sites.items()):
         fn, t, ps = ss[0]
         tab = P2_TABLE.get(label)
